@@ -536,3 +536,29 @@ def check_emission(P, R):
             okw = okw or any(isinstance(x, ast.Attribute) and dotted(x) == 'self.response' for x in cl)
     R.ob('C14.d', w, calls[0] if calls else w.node, okw, text='start_response(status, response.headerlist)', detail='' if okw else
          'the header list handed to the server is not response.headerlist')
+
+
+def check_setters_always_store(P, R, rid, why):
+    """a header setter stores what it is given on every path that returns normally: 0, False and '' are values (Content-Length: 0), only the guard may refuse"""
+    hd = P.cls(f'{CH}:HeaderDict')
+    n = 0
+    for name in ('__setitem__', 'append', 'setdefault'):
+        m = hd.methods.get(name)
+        if m is None:
+            continue
+        g = m.cfg
+        stores = []
+        for nd in g.nodes:
+            if nd.ast is None or nd.kind not in ('stmt', 'test'):
+                continue
+            for x in walk_shallow(nd.ast):
+                if isinstance(x, ast.Assign) and any(isinstance(t, ast.Subscript) for t in x.targets):
+                    stores.append(nd)
+                if isinstance(x, ast.Call) and call_attr(x) in ('setdefault', 'append', '__setitem__') and x is not None and not (isinstance(x.func.value, ast.Name) and x.func.value.id == 'self'):
+                    stores.append(nd)
+        n += 1
+        ok = bool(stores) and g.must_pass(g.entry, g.exit, stores)
+        R.ob(rid, m, m.node, ok, text=f'HeaderDict.{name} stores the value on every path that returns', detail='' if ok else
+             f'HeaderDict.{name} can return without storing anything (a test of the value\'s truth before the store?): the integer 0 is dropped, so the '
+             f'`Content-Length: 0` computed for an empty file never reaches the response', why=why, key_extra=f'always-store:{name}')
+    R.require(n >= 2, f'{n} single-value setters of HeaderDict found (3 on the pinned tree)')
